@@ -47,18 +47,25 @@ package fifo
 //@   loop 0 invariant forall i int :: 0 <= i && i <= rangeindex ==> resSeq[old(nRes) + i] == g.resmods[i]
 //@   loop 0 invariant !g.aggregateErrors ==> len(merr.errs) == 0
 
+// the two lists never share a backing array (append only ever reallocates or extends its own list)
+//@ pred listsApart(g *Group) = (arr(g.reqmods) == nil || allocated(arr(g.reqmods))) && (arr(g.resmods) == nil || allocated(arr(g.resmods))) &&
+//@      (arr(g.reqmods) == nil || arr(g.resmods) == nil || arr(g.reqmods) != arr(g.resmods))
 //@ func (*Group).AddRequestModifier
 //@   serves C12
-//@   requires reqOK(g) && reqmod != nil
+//@   requires reqOK(g) && reqmod != nil && listsApart(g)
 //@   modifies g.reqmods, g.reqmu.wheld, g.reqmods[*]
 //@   ensures[appended-last-order-kept] len(g.reqmods) == old(len(g.reqmods)) + 1 && g.reqmods[old(len(g.reqmods))] == reqmod &&
 //@        forall i int :: 0 <= i && i < old(len(g.reqmods)) ==> g.reqmods[i] == old(g.reqmods[i])
+//@   ensures[lock-released-and-list-well-formed] reqOK(g) && (fresh(arr(g.reqmods)) || arr(g.reqmods) == old(arr(g.reqmods)))
+//@   ensures[lists-stay-apart] listsApart(g)
 //@ func (*Group).AddResponseModifier
 //@   serves C12
-//@   requires resOK(g) && resmod != nil
+//@   requires resOK(g) && resmod != nil && listsApart(g)
 //@   modifies g.resmods, g.resmu.wheld, g.resmods[*]
 //@   ensures[appended-last-order-kept] len(g.resmods) == old(len(g.resmods)) + 1 && g.resmods[old(len(g.resmods))] == resmod &&
 //@        forall i int :: 0 <= i && i < old(len(g.resmods)) ==> g.resmods[i] == old(g.resmods[i])
+//@   ensures[lock-released-and-list-well-formed] resOK(g) && (fresh(arr(g.resmods)) || arr(g.resmods) == old(arr(g.resmods)))
+//@   ensures[lists-stay-apart] listsApart(g)
 
 // C13: reset reaches every verifier in the list; verification reports nil exactly when no verifier below has anything
 // unmet (the exact count over a list needs a sum over the list and is not claimed).
@@ -101,3 +108,8 @@ package fifo
 //@   loop 0 invariant forall i int :: 0 <= i && i < len(g.resmods) ==> g.resmods[i] != nil
 //@   loop 0 invariant g.resmu.wheld && g.resmu.rheld == 0 && merr != nil && merrIdle(merr) && !merr.gShared && len(merr.errs) >= 0 && (arr(merr.errs) == nil || !wasAllocated(merr.errs))
 //@   loop 0 invariant (len(merr.errs) == 0) == (forall i int :: 0 <= i && i <= rangeindex && i < len(g.resmods) ==> cntRes2(g.resmods[i]) == 0)
+
+//@ func NewGroup
+//@   serves C12 C14
+//@   modifies nothing
+//@   ensures[new-group-is-empty] result != nil && fresh(result) && reqOK(result) && resOK(result) && len(result.reqmods) == 0 && len(result.resmods) == 0 && !result.aggregateErrors && listsApart(result)
